@@ -72,7 +72,8 @@ def plan(tier):
 
 def required(tier):
     return ["post:biccs", "post:all_components", "post:dfs", "exhaustive_connected_graphs",
-            "history_ops", "invariant_evals", "biccs_with_artic", "multigraph_cases", "query_after_query"]
+            "history_ops", "invariant_evals", "biccs_with_artic", "multigraph_cases", "query_after_query",
+            "graphs_loaded_from_file", "file_without_final_newline"]
 
 
 # -- model ------------------------------------------------------------------------------------
@@ -126,8 +127,47 @@ def adj_from_real(g):
     return adj
 
 
-def build_real(model):
+def build_from_file(model, rng, casedir):
+    """The same graph read from a GFA file (the way every command builds its graph): records in any
+    order, plain or gzip, LF or CRLF, empty lines, header line, last record without a terminator."""
     from gaftools.gfa import GFA
+    s = [f"S\t{n}\t{seq or '*'}" for n, seq in model.nodes.items()]
+    l = [f"L\t{a}\t{oa}\t{b}\t{ob}\t{ov}M" for a, oa, b, ob, ov in model.links]
+    style = rng.choice(["s_then_l", "l_then_s", "mixed"])
+    if style == "s_then_l":
+        body = s + l
+    elif style == "l_then_s":
+        body = l + s
+    else:
+        body = s + l
+        rng.shuffle(body)
+    if rng.random() < 0.3:
+        body.insert(0, "H\tVN:Z:1.0")
+    if rng.random() < 0.3 and len(body) > 1:
+        body.insert(rng.randint(1, len(body) - 1), "")
+    nl = "\r\n" if rng.random() < 0.15 else "\n"
+    text = nl.join(body) + ("" if rng.random() < 0.3 else nl)
+    M.hit("graphs_loaded_from_file")
+    if not text.endswith("\n"):
+        M.hit("file_without_final_newline")
+    if rng.random() < 0.3:
+        import gzip
+        path = os.path.join(casedir, f"m{rng.randint(0, 10**9)}.gfa.gz")
+        with gzip.open(path, "wb") as f:
+            f.write(text.encode())
+    else:
+        path = os.path.join(casedir, f"m{rng.randint(0, 10**9)}.gfa")
+        with open(path, "w", newline="") as f:
+            f.write(text)
+    g = GFA(path)
+    os.remove(path)
+    return g
+
+
+def build_real(model, via_file=None):
+    from gaftools.gfa import GFA
+    if via_file is not None:
+        return build_from_file(model, *via_file)
     g = GFA()
     for n, seq in model.nodes.items():
         g.add_node(n, seq)
@@ -231,9 +271,9 @@ def check_structure(g, model, viol, where):
                              "msg": f"{where}: {nid}.{name} = {sorted(real)} expected {sorted(exp[nid][side])}"})
 
 
-def judge_graph(model, viol, situations, check_all=True):
+def judge_graph(model, viol, situations, check_all=True, via_file=None):
     """Boundary oracle on a graph built through the library."""
-    g = build_real(model)
+    g = build_real(model, via_file)
     check_structure(g, model, viol, "after build")
     adj = model.adj()
     comps = bcc.components(adj)
@@ -507,14 +547,14 @@ def run_case(ctx, rng, index, casedir):
         for _ in range(rng.randint(1, 6)):
             a, b = rng.randrange(n), rng.randrange(n)
             model.add_link(f"m{a}", rng.choice("+-"), f"m{b}", rng.choice("+-"), rng.choice([0, 0, 7]))
-        judge_graph(model, viol, sit)
+        judge_graph(model, viol, sit, via_file=(rng, casedir) if rng.random() < 0.4 else None)
         evals = 1
         M.hit("multigraph_cases")
         sigs.append(stable_hash(model.links))
         sample = {"family": "multigraph_sampled", "links": model.links}
     elif kind[0] == "random":
         model, shape = random_graph(rng)
-        judge_graph(model, viol, sit, check_all=False)
+        judge_graph(model, viol, sit, check_all=False, via_file=(rng, casedir) if rng.random() < 0.4 else None)
         evals = 1
         sit["random_" + shape] += 1
         sigs.append(stable_hash(model.links))
